@@ -7,3 +7,37 @@ package ingest
 
 //@ extern github.com/golang/geo/s1.Angle.E7
 //@   pure
+
+// ---- C13: a rejected AddFeature leaves the feature map as it was ------------------
+// The callees below read the world; that they do not write the feature map (nor the
+// reference map or the index) is an assumption here, named in the evidence. With
+// InvertClockwisePaths == false (the only value these callers pass) ValidatePath does
+// not call invertPoints.
+
+//@ func ValidateFeature
+//@   trusted
+//@   pure
+//@ func allReferences
+//@   trusted
+//@   pure
+//@ func NewFeatureFromWorld
+//@   trusted
+//@   pure
+
+//@ func (*BasicMutableWorld).AddFeature
+//@   requires m.features != nil && f != nil
+//@   loop 1 invariant rangeindex >= -1
+//@   ensures implies(result != nil, samemap(*m.features))
+
+//@ func (*MutableOverlayWorld).AddFeature
+//@   requires m.features != nil && f != nil
+//@   loop 1 invariant rangeindex >= -1
+//@   ensures implies(result != nil, samemap(*m.features))
+
+// Success path of AddFeature: nothing is claimed about it under C13, the calls are havocked.
+//@ func NewModifiedFeatures
+//@   havoc
+//@ func NewModifiedFeaturesWithCopies
+//@   havoc
+//@ func (*ModifiedFeatures).Update
+//@   havoc
